@@ -9,7 +9,7 @@ from lib.engine import R, V, enum_part, hyp_part
 ID = 'C09'
 RULE = ('(month, day) over all 366 valid pairs x layouts (Month d, m/d, d Month, Month dth) and the seven weekday names x reference datetimes '
         '1950-2090, with the reference FORCED to the interesting relations (the stated day itself, the day before, the day after, Feb 28 / Feb 29 '
-        '/ Mar 1 of leap and non-leap years, midnight and non-midnight times); thorough enumerates all 366 pairs x a reference grid; '
+        '/ Mar 1 of leap and non-leap years, midnight and non-midnight times), half of the cases preceded by the same text under the sibling reference of the same day; thorough enumerates all 366 pairs x a reference grid; '
         'non-trivial = stated day within one day of the reference date, or 29 February; distinct = (query, reference)')
 ASSUMPTIONS = ['past = latest occurrence strictly before the reference DATE, future = earliest occurrence on or after it (10-line search over years)']
 TD = dt.timedelta
@@ -71,6 +71,9 @@ PREDICATES = {'c09_same_day_nonmidnight': same_day_nonmidnight}
 def run_case(case):
     q, pos, expr = build(case)
     ref = dt.datetime.fromisoformat(case['ref'])
+    if case.get('pre_ref'):
+        # the same text asked a moment earlier under another reference must not influence this answer
+        G.parse('en-us', q, case['pre_ref'])
     got = G.parse('en-us', q, case['ref'])
     vs = []
     if case['kind'] == 'md':
@@ -90,7 +93,7 @@ def run_case(case):
     if not ok:
         vs.append(V('CANDIDATES_WRONG', {'query': q, 'ref': case['ref'], 'expected': want, 'got': got}, bucket=bucket))
     return R(vs, nontrivial=near, labels=[bucket, 'ref:midnight' if ref.time() == dt.time(0, 0) else 'ref:daytime'],
-             obs={'query': q, 'ref': case['ref'], 'entities': got}, key=[q, case['ref']])
+             obs={'query': q, 'ref': case['ref'], 'entities': got}, key=[q, case['ref'], case.get('pre_ref')], evals=2 if case.get('pre_ref') else 1)
 
 
 def all_pairs():
@@ -135,7 +138,11 @@ def forced_enum(quick):
                 for r in forced_refs(m, d, y, times):
                     for layout in (sorted(LAYOUTS) if (m, d) in ((2, 29), (1, 1), (12, 31)) or not quick else [sorted(LAYOUTS)[i % 4]]):
                         i += 1
-                        yield {'kind': 'md', 'm': m, 'd': d, 'layout': layout, 'ref': r, 'carrier': CARRIERS[i % 6]}
+                        rr = dt.datetime.fromisoformat(r)
+                        sibling = rr.replace(hour=15, minute=30, second=0, microsecond=0) if rr.time() == dt.time(0, 0) else rr.replace(
+                            hour=0, minute=0, second=0, microsecond=0)
+                        yield {'kind': 'md', 'm': m, 'd': d, 'layout': layout, 'ref': r, 'carrier': CARRIERS[i % 6],
+                               'pre_ref': sibling.isoformat() if i % 2 else None}
         base = dt.datetime(2019, 12, 26, 0, 0, 0)
         for off in range(14):
             for t in ((0, 0, 0, 0), (18, 30, 0, 0), (9, 15, 30, 654321)):
@@ -159,7 +166,11 @@ def cases():
                 base = dt.date(ref.year, 3, 1)
             x = base + TD(rel)
             ref = ref.replace(year=x.year, month=x.month, day=x.day)
-        return {'kind': 'md', 'm': p[0], 'd': p[1], 'layout': layout, 'ref': ref.isoformat(), 'carrier': CARRIERS[ci]}
+        pre = None
+        if ci % 2:
+            pre = (ref.replace(hour=15, minute=30, second=0, microsecond=0) if ref.time() == dt.time(0, 0) else
+                   ref.replace(hour=0, minute=0, second=0, microsecond=0)).isoformat()
+        return {'kind': 'md', 'm': p[0], 'd': p[1], 'layout': layout, 'ref': ref.isoformat(), 'carrier': CARRIERS[ci], 'pre_ref': pre}
     mds = st.builds(md, st.one_of(st.sampled_from(pairs), st.sampled_from([(2, 29), (2, 28), (3, 1), (12, 31), (1, 1)])), st.sampled_from(sorted(LAYOUTS)),
                     G.refs(), st.sampled_from([None, None, -1, 0, 0, 1]), st.integers(0, 5))
     wds = st.builds(lambda w, cap, r, ci: {'kind': 'wd', 'wd': w, 'cap': cap, 'ref': r, 'carrier': CARRIERS[ci]}, st.integers(0, 6), st.booleans(),
